@@ -209,6 +209,13 @@ func (E *Engine) encodeOnce(key string, preset map[string]string, presetTypes []
 	f.throwObligations()
 	f.unwindObligations()
 	f.applySplits()
+	// an at_call clause that matches no call of the function says nothing: the contract is
+	// stale (callee renamed, call removed) and that must not pass silently
+	for k, cs := range fc.AtCalls {
+		if !enc.atCallSeen[k] {
+			cfail("at_call %s : ... matches no call in %s (stale clause)", cs.Callee, key)
+		}
+	}
 	return enc, nil
 }
 
